@@ -11,7 +11,7 @@ RULE = ("Same generated broker histories as C01 but biased toward several margin
 ASSUMPTIONS = [
     "margin law rel 1e-9; decomposition abs <= 1e-9 * (deposit + traded notional + open notional)",
     "weights/context only queried when NLV > 0 (valuation of a broke account raises by design, C09)",
-    "<= 4 contracts, <= 40 ops per history",
+    "<= 4 contracts, <= 40 ops per history (part wide: 5-12 contracts, 40-150 ops, prices 1e-3..1e6, deposits up to 1e10)",
 ]
 
 
@@ -32,6 +32,13 @@ def run_margin(case):
     return res
 
 
+def run_wide(case):
+    res = run_margin(case)
+    res.tag("wide")
+    return res
+
+
 PARTS = [
     Part("margin", strategy=lambda tier: B.histories(tier, margined_bias=True, near_close=True), run=run_margin, quick=5000, thorough=400000),
+    Part("wide", strategy=lambda tier: B.histories(tier, margined_bias=True, near_close=True, wide=True), run=run_wide, quick=600, thorough=40000),
 ]
